@@ -1206,14 +1206,19 @@ func ruleC12Hash(c *Ctx) {
 	}
 	nest := core.WithAnon(h)
 	// the recursive writer: the nested function taking a reflect.Value that calls itself
-	var w *ssa.Function
-	for _, fn := range nest {
-		if len(fn.Params) == 1 && tReflectValue(fn.Params[0].Type()) {
-			w = fn
+	w := c.hashWriter(h)
+	if w != h {
+		for _, f := range core.WithAnon(outermost(w)) {
+			dup := false
+			for _, g := range nest {
+				if g == f {
+					dup = true
+				}
+			}
+			if !dup {
+				nest = append(nest, f)
+			}
 		}
-	}
-	if w == nil {
-		w = h
 	}
 	var subjParam *ssa.Parameter
 	for _, p := range w.Params {
@@ -1473,4 +1478,35 @@ func blockReturnsConst(b *ssa.BasicBlock, val string) bool {
 // sameRegionBefore: a is in a block from which the call is reachable (it belongs to the same keyword's code).
 func sameRegionBefore(a ssa.Instruction, call ssa.Instruction, fn *ssa.Function) bool {
 	return core.Reachable(a.Block(), call.Block(), nil) || a.Block() == call.Block()
+}
+
+// hashWriter: the function that does the recursive hashing on behalf of hasher h: a closure of h taking
+// the value, or a self-recursive package function or method with a reflect.Value parameter that h calls; else h itself.
+func (c *Ctx) hashWriter(h *ssa.Function) *ssa.Function {
+	for _, fn := range core.WithAnon(h) {
+		if fn != h && len(fn.Params) == 1 && tReflectValue(fn.Params[0].Type()) {
+			return fn
+		}
+	}
+	var w *ssa.Function
+	for _, fi := range c.familyInstrs(h) {
+		call, ok := fi.I.(ssa.CallInstruction)
+		if !ok {
+			continue
+		}
+		callee := call.Common().StaticCallee()
+		if callee == nil || callee == h || !c.P.InPkg(callee) || !selfRecursive(callee) {
+			continue
+		}
+		for _, p := range callee.Params {
+			if tReflectValue(p.Type()) {
+				w = callee
+			}
+		}
+	}
+	if w != nil {
+		c.roles["role:hash-writer"] = w
+		return w
+	}
+	return h
 }
